@@ -319,7 +319,7 @@ def shards(tier, seed):
     big = BIG_CALLS if tier == "thorough" else BIG_CALLS[:2]
     return [("sweep", op) for op in ALL_OPS] + [("mixed", k) for k in ("logix", "slc")] + [("bigcall", op, k) for k in big for op in ("read", "write")] \
         + [("bigcall", op, k) for k in (WRAP, WRAP - 1) for op in ("read-packets", "write-packets")] \
-        + [("between", k) for k in (WRAP - 1, WRAP)] + [("rawcounts",)] + [("threads", k) for k in ("logix", "cip", "slc")] \
+        + [("between", k) for k in (WRAP - 1, WRAP)] + [("rawcounts",)] + [("threads", k) for k in ("logix", "cip", "slc")] + [("twodrivers", k) for k in (WRAP - 2, WRAP - 1, WRAP, WRAP + 1)] \
         + [("bigcall", "write-packets-bit", k) for k in (WRAP, WRAP - 1)] + [("bigcall", "write-packets-bit", WRAP, "debuglog"), ("bigcall", "write-packets", WRAP - 1, "debuglog"), ("bigcall", "read-packets", WRAP, "debuglog")] \
         + [("bigcall", f"fragwrap-{pers}", k) for pers in ("m800", "v32") for k in (WRAP - 2, WRAP - 1, WRAP, WRAP + 1)] + [("bigcall", "fragwrap-m800", k, "debuglog") for k in (WRAP - 2, WRAP - 1, WRAP, WRAP + 1)] + [("bigcall", "fragwrap-v32", k, "debuglog") for k in (WRAP - 1, WRAP)] \
         + [("fresh", pers, it) for pers in ("m800", "v32", "v20") for it in (False, True)] \
@@ -365,6 +365,43 @@ def run_shard(shard, tier, seed):
                 rep.violation("sequence/explicit-counts", f"three packets created with the explicit counts {counts!r}: the wire carried {seqs!r}, target flagged {flagged[:1]!r} ({outs!r})", {"op": "rawcounts", "phase": None})
         call(d.close)
         w.__exit__()
+    elif shard[0] == "twodrivers":
+        # two driver objects in one process, each with its own connection (to two targets): what one sends between two messages of the other
+        # is no part of the other connection's history
+        import pycomm3
+
+        k = shard[1]
+        worlds = []
+        tA = enip.Target(enip.IdentityDevice(lambda req, info: (0, [], b"\x01\x02")), keep_cip=False, keep_seqs=True)
+        tB = enip.Target(enip.IdentityDevice(lambda req, info: (0, [], b"\x03\x04")), keep_cip=False, keep_seqs=True)
+        w = net.World({"10.0.0.1": tA, "10.0.0.2": tB} if False else tA, io_budget=10**10)
+        w.__enter__()
+        a = pycomm3.CIPDriver("10.0.0.1/bp/0")
+        b = pycomm3.CIPDriver("10.0.0.1/bp/1")  # a second session and connection of its own at the same target
+        call(a.open)
+        call(b.open)
+        msg = dict(service=0x0E, class_code=0x99, instance=1, attribute=1)
+        call(a.generic_message, **msg)
+        call(b.generic_message, **msg)
+        conns = list(tA.connections.values())
+        ca = conns[0]
+        for rnd in range(2):
+            n_ev = len(tA.events)
+            n0 = len(ca.seqs)
+            for _ in range(k):
+                b.generic_message(**msg)
+            out = call(a.generic_message, **msg)
+            seqs = ca.seqs[n0 - 1:]
+            flagged = [e for e in tA.events[n_ev:] if e[0].startswith("C17")]
+            ok = out[0] == "ok" and bool(out[1]) and len(seqs) == 2 and seqs[0] != seqs[1] and not flagged
+            rep.case(("twodrivers", k, rnd), outcome="ok" if ok else "bad", calls=k + 1)
+            if not ok:
+                rep.violation("sequence/two-drivers/duplicate", f"{k} connected messages of another driver object (own session and connection) between two messages of this one: counts on this connection {seqs!r}, target flagged {flagged[:1]!r}, result {out!r:.60}",
+                              {"op": "twodrivers", "phase": None, "k": k})
+        call(a.close)
+        call(b.close)
+        w.__exit__()
+        rep.sample({"two_drivers": k})
     elif shard[0] == "threads":
         # one driver, one connection, used from several threads strictly one after the other (every thread is joined or idle before the next
         # step): the connection has ONE history, whoever sends
@@ -614,6 +651,8 @@ def replay(r):
         rep.merge(rep2)
     elif r["op"] == "rawcounts":
         rep.merge(run_shard(("rawcounts",), "quick", 0))
+    elif r["op"] == "twodrivers":
+        rep.merge(run_shard(("twodrivers", r["k"]), "quick", 0))
     elif r["op"] == "threads":
         rep.merge(run_shard(("threads", r["kind"]), "quick", 0))
     elif r["op"] == "between":
